@@ -45,6 +45,14 @@ RULE = ("segmetrics: 1-3 chromosomes, sorted bin tables (abutting / gapped / ove
         "S.segmetrics.cns into the working directory, bintest writes to standard output), the table handed to the "
         "writer is judged like an API "
         "result, the written file must read back equal to it at 1e-5 and the bootstrap interval must equal the API's exactly. "
+        "glue (ops glue / cmd, Model/StatsGlue.lean): do_segmetrics on small tables whose SEGMENT table already carries columns "
+        "-- statistics of an earlier run, ~45 % of them among the statistics requested now (must be recomputed: clause "
+        "requested_statistic_recomputed; every column of the result is tagged own / fresh by comparison with the input and "
+        "with a run on the same tables without those columns), unrequested ones and cn/depth/baf (must come back as they were) --, "
+        "a statistic named twice, interval_stats empty / in either order / with repeats; observables are the requested and "
+        "the own columns only (not column order, not further columns). `cnvkit.py segmetrics` decisions: alpha 0, -0.25, 1.5 "
+        "refused, no statistic flag -> nothing written (an unchanged table would be accepted too), otherwise the output "
+        "file is -o or <sample id>.segmetrics.cns (sample ids S, tumor1, a.b). "
         "not generated: bintest without segments (no segment mean to speak of), an empty segment table given to bintest "
         "(proposed_fixes/C17-bintest-empty-segments.md), segment tables lacking probes/weight columns. "
         "non-trivial = some segment has >= 2 bins and a statistic is requested / some bin is tested / length >= 2; "
